@@ -15,3 +15,15 @@ def fill(claim, not_yet):
 		'Each generated block structure is rendered under five layouts; for every text the significant token sequence of the real Tokenizer must equal CPython tokenize output (NEWLINE/INDENT/DEDENT included), be identical across layouts, balance indents and dedents, and the raw lexer tokens must concatenate to the source with spans addressing their own text.',
 		'Trusted: tokenize from the standard library (3.13), the renderer in vf/props/c13.py. Lexical subset as listed in the evidence assumptions.',
 		'DESIGN.md §4 C13')
+	claim('C10', 'exploration', 'runtime monitoring: laws on the real ASTFinder/EntryCache/Nodes checked against an independent walk of the same tree; node classes re-resolved under permuted query orders in fresh Nodes/NodeResolver pairs',
+		'Every entry of every tree (generated modules, repository modules, random dict trees with repeated/unique/empty sibling tags) is addressed through full_pathfy/pluck/exists/find and the cache, ids are compared with pre-order positions, parent/children/siblings/ancestor/values with the walk, and the class resolved per path under K random query interleavings with the document-order baseline.',
+		'Trusted: vf.trees.walk_entries (15 lines). See evidence assumptions for the clauses deliberately not demanded (unmapped layers skipped by parent, expand heuristic).',
+		'DESIGN.md §4 C10')
+	claim('C15', 'exploration', 'runtime monitoring: real Serialization.dumps -> JSON text -> loads on parse trees, compared field by field and through Nodes; end-to-end through the real on-disk cache with a monitor on EntryStored.load',
+		'Fresh and restored trees are compared entry by entry (name, value, child order, empty slots, spans) and as node trees (path set, node class, tokens, span, id); a sample goes through two fresh applications sharing a scratch cache directory, where a monitor confirms the second one really loaded the stored form.',
+		'Trusted: json from the standard library; the Entry view (EntryOfLark) is the comparison surface, as the statement says.',
+		'DESIGN.md §4 C15')
+	claim('C16', 'exploration', 'runtime monitoring: recorded spans of every node laid over CPython tokenize output of the whole file; real ErrorRender output parsed back',
+		'For every entry with a span: no CPython token is cut, the name/number/string/comment tokens inside are exactly the node\'s own tokens, children lie inside parents, identically on the tree restored from the cache encoding; the line, quoted text and caret range printed by ErrorRender for raised errors are compared with the region and with the text of the node\'s first/last token.',
+		'Trusted: tokenize (3.13). The self-hosted engine\'s error summaries are checked under C11.',
+		'DESIGN.md §4 C16')
